@@ -1854,6 +1854,7 @@ part_adrbg(long long cases, long long bigcases)
 		size_t slen;
 		int nops, j, big = idx >= cases;
 		int taint = 0, aligned_only = (int)((idx >> 1) & 1);
+		int limit_case = idx >= cases && ((idx - cases) & 1), limit_k = (int)(((idx - cases) >> 1) % 6);
 		char trace[400], cls[48];
 		size_t tp = 0;
 
@@ -1869,9 +1870,10 @@ part_adrbg(long long cases, long long bigcases)
 		}
 		ref_adrbg_init(&rd, seed, slen);
 		nops = 1 + (int)vf_below(&r, 6);
+		if (limit_case) { aligned_only = 0; if (nops < 3) nops = 3; }
 		trace[0] = 0;
 		for (j = 0; j < nops; j ++) {
-			if (vf_below(&r, 3) == 0) {
+			if (vf_below(&r, 3) == 0 && !(limit_case && j < 2)) {
 				size_t ul = (vf_below(&r, 4) == 0) ? 0 : vf_below(&r, 100);
 				unsigned char *u = xmalloc(ul);
 				vf_bytes(&r, u, ul);
@@ -1888,6 +1890,10 @@ part_adrbg(long long cases, long long bigcases)
 				unsigned char *o0 = NULL, *e;
 				if (big && j == 0) gl = 32768 * 16 - vf_below(&r, 64) + vf_below(&r, 2) * (16 + vf_below(&r, 200));
 				if (big && j == 1) gl = 70000 + vf_below(&r, 3000);
+				/* every second forced-update case: the request that ends one partial block beyond the counter limit: after
+				   32768 - k blocks, 16k + r bytes are asked for (k = 0..5, 0 < r < 16) */
+				if (limit_case && j == 0) gl = (size_t)(32768 - limit_k) * 16;
+				if (limit_case && j == 1) { gl = 16 * (size_t)limit_k + 1 + vf_below(&r, 15); vf_stat("adrbg_partial_block_at_limit", 1); vf_distinct("adrbg_limit_k", "%d", limit_k); }
 				if (aligned_only) gl &= ~(size_t)15;
 				e = xmalloc(gl);
 				ref_adrbg_generate(&rd, e, gl);
